@@ -216,4 +216,15 @@ func init() {
 		NotCovered:  "`Same meaning apart from the time bounds` is approximated by `no planner state carries over`; state kept in sql_select objects shared between executions (With caches) is covered only through the memo idiom; plugin planners.",
 		Assumptions: []string{commonAssume},
 	}
+	properties["C15"] = &Property{
+		Rules: []string{"I1", "E2"},
+		Explanation: "Decides the bracket/comma/key discipline and the documented nesting of the streaming encoders for every distribution of rows at once: (I1) each function of reader/service and reader/controller that emits a response through jsoniter.Stream (and the literal fragments / helper writers it combines) is abstractly interpreted over its CFG — " +
+			"bracket stack × {0,>0} valuation of the counters it branches on, data comparisons non-deterministic — and on every normal path emits exactly one JSON document whose `result`/`streams` elements are objects and whose `values` elements are pairs; this covers empty batches, batch boundaries inside a series and a first series with fingerprint 0; " +
+			"(E2) no string of a response body is rendered with Go quoting.",
+		NotCovered:  "Numeric rendering without loss; escaping done inside jsoniter/encoding/json (trusted); error-termination paths after onErr (the body is cut by design); the literal-concatenating encoders of the label/series/tempo endpoints are covered by E2 only (their fragments are relayed, not re-tokenised); that every returned row appears exactly once.",
+		Assumptions: []string{"jsoniter.Stream writes exactly the token its method name says", "fragments relayed from a channel were produced by an encoder verified by the same rule"},
+		Filter: keepIf(func(rule, key string) bool {
+			return rule != "E2" || strings.Contains(key, "reader/")
+		}),
+	}
 }
